@@ -307,3 +307,21 @@ OBLIGATIONS = [
        doc="get_iter result == whole-run oracle, chunks tile the run, for every chunking / processor / stored subset"),
     Ob("twin", sym_twin, lambda tier: [dict()], None, setup=_setup, expect_cex=True),
 ]
+
+
+MUTANTS = [
+    dict(name="loop plugin containment strict", file="strax/processing/general.py",
+         old="        if b_starts[b_i] <= a_starts[a_i] and a_ends[a_i] <= b_ends[b_i]:",
+         new="        if b_starts[b_i] < a_starts[a_i] and a_ends[a_i] <= b_ends[b_i]:"),
+    dict(name="post office drops the last message of a topic", file="strax/processing/general.py",
+         old="        max_endtime = max(max_endtime, endtime)", new="        max_endtime = endtime"),
+    dict(name="rechunk on save cuts without margin", file="strax/chunk.py",
+         old='                t=chunk.data["time"][index] - int(DEFAULT_CHUNK_SPLIT_NS // 2),\n                allow_early_split=False,\n            )\n            chunks.append(_chunk)',
+         new='                t=chunk.data["time"][index] + 1,\n                allow_early_split=True,\n            )\n            chunks.append(_chunk)'),
+    dict(name="exhaust plugin stops after the first extra chunk", file="strax/plugins/exhaust_plugin.py",
+         old="        while super()._fetch_chunk(d, iters, check_end_not_before=check_end_not_before):\n            pass",
+         new="        super()._fetch_chunk(d, iters, check_end_not_before=check_end_not_before)"),
+    dict(name="divide_outputs skips the last result dict", file="strax/mailbox.py",
+         old="            try:\n                for d, x in result.items():\n                    mailboxes[d].send(x)",
+         new="            try:\n                for d, x in list(result.items())[:max(1, len(result) - (i == 1))]:\n                    mailboxes[d].send(x)"),
+]
